@@ -19,6 +19,12 @@ ASSUMPTIONS = ["complete 2D D-symbol (asserted by curvature())"]
 
 
 def run(ctx):
+    _g = ctx.facts.getters()
+    _n = 0
+    for _d, _b in sorted(ctx.facts.bodies.items()):
+        if _d.startswith("delaney2d::") and "::test" not in _d and not _b.f.get("test"):
+            _n += op_fallback_is_fixed_point(ctx, "T4-undefined-op-stays", _b, _g)
+    ctx.floor("op(k, x).unwrap_or(x) sites", _n, 1)
     g = ctx.facts.getters()
     ctx.clauses.append("euclidean <=> curvature 0, hyperbolic <=> curvature < 0, spherical => curvature > 0 (T9/T4)")
     for fn, tests in (("is_euclidean", ("num_traits::Zero::is_zero",)), ("is_hyperbolic", ("num_traits::Signed::is_negative",))):
